@@ -181,7 +181,20 @@ def filter_trace(src, dst, keep, transform=None, chunk=20000):
 # -------------------------------------------------------------------------------------------- TLC
 
 def tlc(module, cfg, env_extra=None, workers=1, timeout_s=3600, extra=None, heap="3g", cwd=None, simulate=None):
-    """Run TLC; returns dict(out, rc, distinct, generated, depth, violated, wall)."""
+    """Run TLC; returns dict(out, rc, distinct, generated, depth, violated, wall).
+    A run that dies of a Java StackOverflowError is repeated (twice at most): evaluating the large set-valued
+    POSTCONDITION of MC_Codec overflowed the stack in about one start out of five, depending on how far the JIT had got
+    (the specification is the same every time; a deterministic error shows up three times and is reported)."""
+    for attempt in range(3):
+        try:
+            return _tlc_once(module, cfg, env_extra, workers, timeout_s, extra, heap, cwd, simulate)
+        except ToolError as e:
+            if "StackOverflowError" not in str(e) or attempt == 2:
+                raise
+            log("[tlc] StackOverflowError in %s, attempt %d: repeating" % (os.path.basename(module), attempt + 1))
+
+
+def _tlc_once(module, cfg, env_extra=None, workers=1, timeout_s=3600, extra=None, heap="3g", cwd=None, simulate=None):
     md = workdir("tlc_%s_%s" % (os.path.basename(cfg).replace(".cfg", ""), hashlib.md5((cfg + str(env_extra) + str(time.time())).encode()).hexdigest()[:8]))
     env = dict(os.environ)
     # single-worker runs (trace validation, up to 8 JVMs side by side) must not each start a GC thread per core
@@ -198,7 +211,8 @@ def tlc(module, cfg, env_extra=None, workers=1, timeout_s=3600, extra=None, heap
     cmd += [module]
     t0 = time.time()
     try:
-        p = subprocess.Popen(["timeout", str(int(timeout_s))] + cmd, cwd=cwd or SPEC, env=env, stdout=subprocess.PIPE, stderr=subprocess.STDOUT, text=True)
+        # (unlimited stack for the JVM's primordial thread as well; worker threads get -Xss)
+        p = subprocess.Popen(["bash", "-c", 'ulimit -s unlimited 2>/dev/null; exec "$@"', "tlc-run", "timeout", str(int(timeout_s))] + cmd, cwd=cwd or SPEC, env=env, stdout=subprocess.PIPE, stderr=subprocess.STDOUT, text=True)
         buf = []
         seen_bad = False
         cut_short = False
